@@ -138,6 +138,33 @@ class FeatureInfo:
     def to_str(self):
         return "%s\t%d\t%d\t%s\t%s\t%s" % (self.chr_id, self.start, self.end, self.strand, self.type, ",".join(self.gene_ids))
 
+    # the same annotated feature as described by another gene info: strand, flags and gene list are computed from
+    # the genes loaded together, and a read cluster that is cut into sub-regions loads only the genes overlapping
+    # each sub-region; the union describes the feature with respect to all genes seen
+    def merge(self, other):
+        if (self.strand, self.type, self.gene_ids) == (other.strand, other.type, other.gene_ids):
+            return self
+
+        gene_ids = sorted(set(self.gene_ids) | set(other.gene_ids))
+        strand_str = "".join(sorted(set(self.strand) | set(other.strand)))
+        if self.type.startswith("X") and other.type.startswith("X"):
+            # terminal in all isoforms
+            feature_type = "X"
+        elif self.type.startswith("I") and other.type.startswith("I"):
+            # internal in all isoforms
+            feature_type = "I"
+        else:
+            feature_type = "T"
+        for flag in "SC":
+            # similar to / contained in another feature
+            if flag in self.type or flag in other.type:
+                feature_type += flag
+        if len(gene_ids) > 1:
+            feature_type += "M"
+        elif "U" in self.type and "U" in other.type:
+            feature_type += "U"
+        return FeatureInfo(self.chr_id, self.start, self.end, strand_str, feature_type, gene_ids)
+
 
 # All gene(s) information
 class GeneInfo:
